@@ -281,7 +281,7 @@ theorem Micro.preserves_Inv16 {U : Universe} {Vp : Nat → Nat → Nat → Prop}
       rw [hHU c hc, hch, hbU.2.2, U.height_step _ hbU.1, ← hbU.2.1]
     rw [this] at hm
     exact mod_zero_of_succ_mod_one he hm
-  | addSig tgt o src srcH tn hf _ _ _ _ _ _ =>
+  | addSig tgt o src srcH tn shd hshd hshh hf _ _ _ _ _ _ =>
     apply Tree.Desc.update _ _ _ hd
     · intro c _ _; exact UAnc.refl _ _
     · intro c _ _; exact Or.inr ⟨rfl, fun h => h⟩
@@ -340,7 +340,7 @@ theorem Micro.root_step {U : Universe} {Vp : Nat → Nat → Nat → Prop} {s s'
     apply key
     show (s.tree.addChild _ _).ckpt.hash = _
     rw [Tree.addChild_root]
-  | addSig tgt o src srcH tn hf _ _ _ _ _ _ =>
+  | addSig tgt o src srcH tn shd hshd hshh hf _ _ _ _ _ _ =>
     apply key
     show (s.tree.update _ _).ckpt.hash = _
     rw [Tree.update_root]; split <;> rfl
@@ -388,7 +388,7 @@ theorem Micro.status_step {U : Universe} {Vp : Nat → Nat → Nat → Prop} {s 
     · right
       have h1 : ¬ (b.height % s.cfg.epoch = 0) := by have := hb.1; omega
       simp [increase, newCkpt, h1]
-  | addSig tgt o src srcH tn hf _ _ _ _ _ _ =>
+  | addSig tgt o src srcH tn shd hshd hshh hf _ _ _ _ _ _ =>
     rcases Tree.mem_update hc' with hc | ⟨r, hr, rfl⟩
     · exact self hc
     · exact Or.inl ⟨r.ckpt, Tree.find_mem hr, Nat.le_refl _, Or.inl rfl⟩
